@@ -228,6 +228,10 @@ func (d *Demuxer) parse() error {
 	// fileSize is the size after the first 8 bytes (RIFF + size field).
 	// Use uint64 arithmetic to prevent int overflow on 32-bit platforms.
 	totalSize64 := uint64(fileSize) + 8
+	if totalSize64 < container.RIFFHeaderSize {
+		// The RIFF payload must at least hold the "WEBP" tag.
+		return ErrInvalidRIFF
+	}
 	if totalSize64 > uint64(len(d.data)) {
 		// Allow truncated data — work with what we have.
 		totalSize64 = uint64(len(d.data))
